@@ -403,9 +403,12 @@ func getPrevStandaloneSnapshot(snapPath string) (string, error) {
 func snapshotPath(c *Config, tName string, isStandalone bool) (string, string) {
 	//  skips current func, the wrapper match* and the exported Match* func
 	callerFilename := baseCaller(3)
+	// file names recorded by a -trimpath build are module relative. This also catches
+	// the builds trimPathBuild misses (GOROOT exported and no hint in GOFLAGS).
+	trimmed := isTrimBathBuild || !filepath.IsAbs(callerFilename)
 
 	dir := c.snapsDir
-	if !filepath.IsAbs(dir) && !isTrimBathBuild {
+	if !filepath.IsAbs(dir) && !trimmed {
 		dir = filepath.Join(filepath.Dir(callerFilename), c.snapsDir)
 	}
 
@@ -418,7 +421,7 @@ func snapshotPath(c *Config, tName string, isStandalone bool) (string, string) {
 
 	snapPath := filepath.Join(dir, constructFilename(c, callerFilename, tName, isStandalone))
 	snapPathRel := snapPath
-	if !isTrimBathBuild {
+	if !trimmed {
 		snapPathRel, _ = filepath.Rel(callerDir, snapPath)
 	}
 
